@@ -24,6 +24,7 @@
 EXTENDS JavaExpr, Json
 
 CONSTANTS Stride, Stride3, Offset,
+          Core,         \* "sign": the complete products range over the sign core only; "full": also over the limits
           PerPair,      \* operand choices exported per nested pair
           NCand,        \* operand candidates examined per nested pair
           Parts         \* subset of {"flat", "nest"}
@@ -53,8 +54,13 @@ BKs   == {FromInt(k) : k \in {0, 1, 2, 31, 32, 33, 63, 64, 65, 100}}
 
 TVals(t) == CASE t = "Bool" -> BOOLEAN [] t = "Char" -> CVals [] t = "Byte" -> YVals [] t = "HInt" -> HVals
               [] t = "SInt" -> SVals [] t = "Word" -> WVals [] t = "BInt" -> BVals
-TCore(t) == CASE t = "SInt" -> SCore [] t = "BInt" -> BCore [] OTHER -> TVals(t)
+CCore == {0, 48, 57, 65, 97, 127}
+TCore(t) == CASE t = "SInt" -> (IF Core = "sign" THEN SSign ELSE SCore)
+              [] t = "BInt" -> (IF Core = "sign" THEN SSign ELSE BCore)
+              [] t = "Char" -> CCore
+              [] OTHER -> TVals(t)
 
+UStride == IF Stride > 4 THEN 2 ELSE 1
 Keep2(i, j)    == (i + 3 * j + Offset) % Stride = 0
 Keep3(i, j, k) == (i + 3 * j + 7 * k + Offset) % Stride3 = 0
 Pairs(A, Bs, CA, CB) ==
@@ -67,7 +73,11 @@ Triples(A, Bs, Cs) ==
 ModN == {One, FromInt(2), FromInt(5), FromInt(7), FromInt(11), P2(15), Add(P2(16), FromInt(15)), P2(30), Sub(P2(31), One)}
 ModRes(n) == {z \in {Zero, One, FromInt(2), FromInt(3), Sub(n, One), Sub(n, FromInt(2)), QuoRem(n, FromInt(2)).q} :
                  ~z.neg /\ Lt(z, n)}
-ModCases == UNION {{<<a, b, n>> : a \in ModRes(n), b \in ModRes(n)} : n \in ModN}
+MStride == IF Stride > 4 THEN 3 ELSE 1
+ModCases == UNION { LET rs == SetToSeq(ModRes(n)) IN
+                    {<<rs[p[1]], rs[p[2]], n>> :
+                        p \in {q \in (1..Len(rs)) \X (1..Len(rs)) : (q[1] + 2 * q[2] + Offset) % MStride = 0}}
+                  : n \in ModN}
 
 StrTyped(o) == \E i \in 1..Len(SigOf(o).args) : SigOf(o).args[i] \in {"Str", "SFlo", "DFlo"}
 FlatOps == {o \in DefOps \ NotInJavaSubset : ~StrTyped(o) /\ Len(SigOf(o).args) > 0}
@@ -79,7 +89,8 @@ FlatArgs(o) ==
     [] o \in {"SIntPlusMod", "SIntMinusMod", "SIntTimesMod"} -> ModCases
     [] o = "CharNum" -> {<<FromInt(c)>> : c \in 0..127}
     [] o = "WordDivideDouble" -> Triples({Zero, One, FromInt(2)}, WVals, WVals \ {Zero})
-    [] n = 1 -> {<<x>> : x \in TVals(ts[1])}
+    [] n = 1 -> LET sq == SetToSeq(TVals(ts[1])) IN
+                {<<sq[i]>> : i \in {j \in 1..Len(sq) : (j + Offset) % UStride = 0}} \cup {<<x>> : x \in TCore(ts[1])}
     [] n = 2 -> Pairs(TVals(ts[1]), TVals(ts[2]), TCore(ts[1]), TCore(ts[2]))
     [] n = 3 -> Triples(TCore(ts[1]), TCore(ts[2]), TCore(ts[3]))
     [] OTHER -> {}
